@@ -123,6 +123,9 @@ def main():
         for hl in [0, 1, 5, 7, 16, 17, 255]:
             pl = dhcplib.dhcp_payload(1, bytes([2, 0x66, 0, 0, 0, hl]), 4000 + hl, options=[(55, bytes([1, 3, 6]))], hlen=hl)
             inputs.insert(rnd.randrange(len(inputs)), {"hex": pl.hex(), "how": "valid DISCOVER with hlen=%d" % hl})
+        # boundary datagram sizes, zero first
+        for ln in [0, 1, 2, 3, 4, 43, 44, 235, 236, 239, 240, 241]:
+            inputs.insert(rnd.randrange(len(inputs)), {"hex": (bytes([1, 1, 6, 0]) + bytes(300))[:ln].hex(), "how": "datagram of %d octets" % ln})
         for b in range(0, len(inputs), 50):
             batch = inputs[b:b + 50]
             for i in batch:
@@ -138,13 +141,21 @@ def main():
         leg.count("dhcp_inputs", len(inputs))
         # ---------------------------------------------------------------- DNS queries (UDP + TCP) and hostile upstream replies
         inputs = corpus("dns-query", args["seed"], N, d)
+        for ln in [0, 0, 1, 2, 11, 12, 13, 16, 17]:
+            inputs.insert(rnd.randrange(len(inputs)), {"hex": (bytes([0, 9, 1, 0, 0, 1, 0, 0, 0, 0, 0, 0, 1, 97, 0, 0, 1, 0, 1]))[:ln].hex(), "how": "datagram / TCP frame of %d octets" % ln})
         us = socket.socket(socket.AF_INET, socket.SOCK_DGRAM)
         for b in range(0, len(inputs), 50):
             batch = inputs[b:b + 50]
             for k, i in enumerate(batch):
                 data = bytes.fromhex(i["hex"])
                 leg.eval()
-                if k % 3 == 2:
+                if len(data) < 3:
+                    for dst in (("127.0.0.53", 53), ("127.0.0.1", 5301)):
+                        try:
+                            us.sendto(data, dst)
+                        except OSError:
+                            pass
+                if k % 3 == 2 or len(data) < 3:
                     try:
                         ts = socket.create_connection(("127.0.0.53", 53), timeout=2)
                         ts.sendall(struct.pack(">H", len(data)) + data)
